@@ -459,6 +459,15 @@ func (te *TemporalEvaluator) resolveFutureOperatorInterval(interval ast.Interval
 func (te *TemporalEvaluator) bindIntervalVariables(queryInterval ast.Interval, factInterval ast.Interval, subst unionfind.UnionFind) (unionfind.UnionFind, bool) {
 	newSubst := subst
 
+	// An annotation with a variable is a pattern for the stored interval: a
+	// bound written as a timestamp (or 'now') next to the variable has to be
+	// that bound of the fact. ('_' matches any bound.)
+	if queryInterval.Start.Type == ast.VariableBound || queryInterval.End.Type == ast.VariableBound {
+		if !te.boundMatches(queryInterval.Start, factInterval.Start) || !te.boundMatches(queryInterval.End, factInterval.End) {
+			return subst, false
+		}
+	}
+
 	// Bind start variable if present
 	if queryInterval.Start.Type == ast.VariableBound {
 		// Create a constant for the start timestamp
@@ -483,6 +492,19 @@ func (te *TemporalEvaluator) bindIntervalVariables(queryInterval ast.Interval, f
 	}
 
 	return newSubst, true
+}
+
+// boundMatches reports whether a bound of an annotation that is written as a
+// timestamp or as 'now' is the given bound of a fact. Any other kind of
+// annotation bound (variable, '_') matches every fact bound.
+func (te *TemporalEvaluator) boundMatches(queryBound, factBound ast.TemporalBound) bool {
+	switch queryBound.Type {
+	case ast.TimestampBound:
+		return factBound.Type == ast.TimestampBound && factBound.Timestamp == queryBound.Timestamp
+	case ast.NowBound:
+		return factBound.Type == ast.TimestampBound && factBound.Timestamp == te.evaluationTime.UnixNano()
+	}
+	return true
 }
 
 // intervalToConstant converts an interval to a Mangle constant (pair of numbers).
